@@ -977,6 +977,22 @@ fn random_sa_cells(out: &Arc<Shared>, first_run: u64, seed: u64, n: u64, full: b
             run_id += 2;
         }
     }
+    // --- near ties far above the temperature: the candidate is worse by one to three units in the last place of the
+    // objective values (any magnitude, any mantissa, either sign) while T is far below even that margin (d / T from 28
+    // upwards: p < 1e-12, never accepted).  f(S) / T and f(S') / T are then huge numbers that differ in their last places
+    // only -- the rule is about the difference of the objective values, which is exact, over T.  Half of the cells sit
+    // where the resolution of floats changes (mantissa just below 2, d / T just above a power of two).
+    let up = |a: f64, k: u64| if a > 0.0 { f64::from_bits(a.to_bits() + k) } else { f64::from_bits(a.to_bits() - k) };
+    for c in 0..(if full { 240 } else { 80 }) {
+        let mant: f64 = if c % 2 == 0 { r.gen_range(1.0..2.0) } else { r.gen_range(1.9..2.0) };
+        let sign = if c % 7 == 6 { -1.0 } else { 1.0 };
+        let cur = sign * mant * 2f64.powi(r.gen_range(-40..=40));
+        let cand = up(cur, r.gen_range(1..=3u64));
+        let d = cand - cur;
+        let x = if c % 4 < 2 { 28.0 * 10f64.powf(r.gen_range(0.0..4.5)) } else { 2f64.powi(r.gen_range(5..=20)) * r.gen_range(1.0..1.1) };
+        sa_cell(out, run_id, seed, cur, cand, d / x, 3, Trial::Plain);
+        run_id += 1;
+    }
     // --- the state tracks a best individual that is not the current solution (every SA run after an accepted
     // worsening move): the decision is about current and candidate
     for &(cur, cand) in &[(1.0, 2.0), (-4.0, -3.5), (1e-18, 3e-18), (1e12, 3e12)] {
